@@ -3,6 +3,7 @@ package sim
 import (
 	"encoding/binary"
 	"fmt"
+	"net"
 	"sync"
 	"time"
 
@@ -192,6 +193,19 @@ func scenPeers(r *Run) {
 		}
 		if len(f.Segs) > 0 && f.Segs[0].Conv == c.conv && f.Segs[0].Sn == 0 {
 			c.oldSrv.CloseInvoked = true
+			// ... and the application, whose Read on the old session now fails, closes
+			// it as applications do (a second Close of a session the listener has
+			// already replaced must not disturb the replacement)
+			old := c.oldSrv
+			s.After(time.Duration(1+s.Tape.Skewed("peers-appclose", 0, 100000))*time.Microsecond, "app-closes-replaced-session", func() {
+				if w.TearingDown || old.Closed {
+					return
+				}
+				err := old.Sess.Close()
+				old.Closed = true
+				s.L.Logf("the application closes the replaced session %s -> %v", old.Name, err)
+				s.Stats.Fault("app-closes-replaced-session")
+			})
 		}
 	}
 
@@ -531,6 +545,21 @@ func (pw *peersWorld) inject() {
 		from := MakeAddr(210, w.UDP).String()
 		if y != x && y.addr != "" && t.Chance(ps, 500) {
 			from = y.addr
+		}
+		if t.Chance("peers-port", 400) {
+			// the peer's own host, another port (a stream of its own: older tapes
+			// keep their meaning)
+			if ua, ok := w.LConn.addr.(*net.UDPAddr); ok {
+				fa := &net.UDPAddr{IP: ua.IP, Port: ua.Port + 1 + t.Choose("peers-port", 3), Zone: ua.Zone}
+				from = fa.String()
+				if w.Net.ForeignAddrs == nil {
+					w.Net.ForeignAddrs = map[string]net.Addr{}
+				}
+				w.Net.ForeignAddrs[from] = fa
+			} else {
+				from = w.LConn.addrStr + ":other-port"
+			}
+			s.Stats.Fault("peer-host-other-port-to-dialled")
 		}
 		// take something the listener sent to this client: valid for its conversation
 		srvFlow := w.LConn.addrStr + ">" + x.addr
